@@ -89,6 +89,21 @@ def build_templates(seed, n_rand, n_pert_each):
                  "text": "g :: fn x: int -> int do\n    x + 1\nend\nstart :: fn do\n    f := fn x: *A -> *A do\n        x\n    end\n    print(f(?a))\n    f = g\n    print(f(\"abc\"))\nend\n"})
     base.append({"name": "closure_returning_captured_parameter", "no_perturb": True, "role": "closure over a generic parameter read at two types", "dom": {"a": (0, 3)},
                  "text": "f :: fn x do\n    g :: fn -> x end\n    a : int : g()\n    b : str : g()\n    print(a + 1)\n    print(b + \"s\")\nend\nstart :: fn do\n    f(?a)\nend\n"})
+    # a name declared inside a construct and read after it: rejected, or - if accepted - it must not read an undeclared variable
+    ENUM = "En :: enum\n    A,\n    B,\nend\n"
+    scopes = {"if_branch": "    if ?a > 1 do\n        side := 5\n    end\n", "else_branch": "    if ?a > 1 do\n        print(0)\n    else\n        side := 5\n    end\n",
+              "loop_body": "    i := 0\n    loop i < 1 do\n        i += 1\n        side := 5\n    end\n", "block": "    do\n        side := 5\n    end\n",
+              "case_arm": "    e := if ?a > 1 do En.A else En.B end\n    case e do\n        A -> side := 5 end\n        else print(0) end\n    end\n",
+              "case_else": "    e := if ?a > 1 do En.A else En.B end\n    case e do\n        A -> print(0) end\n        else side := 5 end\n    end\n",
+              "closure_body": "    c :: fn do\n        side := 5\n    end\n    c()\n", "elif_branch": "    if ?a > 2 do\n        print(0)\n    elif ?a > 1 do\n        side := 5\n    end\n"}
+    for n, body in scopes.items():
+        base.append({"name": "use_after_scope_" + n, "role": "name used after the %s that declares it" % n.replace("_", " "), "dom": {"a": (0, 3)}, "text": ENUM + "start :: fn do\n" + body + "    print(side * side)\nend\n"})
+    # generic functions whose result is tuple arithmetic / negation over their parameters, called with operands the operator does not support
+    for n, fn_, call in (("tuple_times_constant", "sc :: fn v ->\n    (v, v) * (2, 3)\nend\n", "sc(\"four\")"), ("tuple_minus_annotated", "df :: fn t: (*A, *A) ->\n    t - (1, 1)\nend\n", "df((\"a\", \"b\"))"),
+                          ("negated_tuple", "ng :: fn a ->\n    -(a, 1)\nend\n", "ng(\"s\")"), ("tuple_of_parameters", "sw :: fn x, y, k ->\n    (x, y) * (k, k)\nend\n", "sw(1, 2, \"s\")")):
+        for use in ("    print(%s)\n", "    %s\n    print(1)\n", "    r := %s\n    print(r)\n"):
+            base.append({"name": "generic_tuple_%s_%d" % (n, len(use)), "no_perturb": True, "role": "generic function returning tuple arithmetic over its parameters (%s)" % n, "dom": {"a": (0, 3)},
+                         "text": fn_ + "start :: fn do\n    print(?a)\n" + (use % call) + "end\n"})
     base.append({"name": "if_value_with_a_branch_that_has_no_value", "no_perturb": True, "role": "if used as a value, one branch ends in a statement", "dom": {"a": (0, 4)},
                  "text": "start :: fn do\n    y := 0\n    x :: if ?a > 2 do 1 else y = 2 end\n    print(x + 1)\nend\n"})
     base.append({"name": "function_parameter_used_at_two_types", "no_perturb": True, "role": "function-typed parameter with wildcard type called at two types", "dom": {"a": (0, 3)},
